@@ -12,7 +12,7 @@ import (
 // C06: the packetizer emits a valid, MTU-bounded, correctly numbered packet train.
 // opcode 601: mtu pt ssrc ts0 seq0 payloaderCode [ops]
 //   ops: [1 xpayload samples nowUnixNano] Packetize | [2 n] GeneratePadding | [3 n] SkipSamples | [4 v] EnableAbsSendTime
-//   payloaders: 0 G711, 1 G722, 2 Opus, 3 VP8 (no picture id)
+//   payloaders: 0 G711, 1 G722, 2 Opus, 3 VP8 (no picture id), 4 a caller-defined one that emits nothing for some payloads
 // Built through the verif hook so that the initial timestamp and the clock are the case's.
 
 func newPayloader(code int) rtp.Payloader {
@@ -24,7 +24,23 @@ func newPayloader(code int) rtp.Payloader {
 	case 2:
 		return &codecs.OpusPayloader{}
 	}
+	if code == 4 {
+		return gatePayloader{}
+	}
 	return &codecs.VP8Payloader{}
+}
+
+// gatePayloader is a caller-defined Payloader (the interface is public): it emits nothing for a
+// payload whose first byte is below 128 - as H264Payloader does for a lone SPS, PPS or AUD - and
+// splits like G711 otherwise.  It lets the packetizer's handling of a call that yields no
+// fragments be compared with the model, which is parametric in the payloader.
+type gatePayloader struct{}
+
+func (gatePayloader) Payload(mtu uint16, payload []byte) [][]byte {
+	if len(payload) == 0 || payload[0] < 128 {
+		return nil
+	}
+	return (&codecs.G711Payloader{}).Payload(mtu, payload)
 }
 
 func runPacketizer(toks []Tok) Outcome {
@@ -153,14 +169,14 @@ func runPacketizer(toks []Tok) Outcome {
 func init() {
 	register(&Prop{
 		ID:       "C06",
-		Rule:     "sequences of 1-8 Packetize / SkipSamples / GeneratePadding / EnableAbsSendTime calls on one packetizer: MTU 64-1500 (mass on 64-120), payloaders G711, G722, Opus (inputs below the budget), VP8; payload sizes 1 B to 4 budgets incl. exact multiples of the budget; abs-send-time ids 1-14; sequence starts near 65535; timestamps near 2^32; clock instants over the NTP era; non-trivial = a call that produced >= 2 packets or padding",
+		Rule:     "sequences of 1-8 Packetize / SkipSamples / GeneratePadding / EnableAbsSendTime calls on one packetizer: MTU 64-1500 (mass on 64-120), payloaders G711, G722, Opus (inputs below the budget), VP8 and a caller-defined payloader that returns no fragment for half of its inputs; payload sizes 1 B to 4 budgets incl. exact multiples of the budget; abs-send-time ids 1-14; sequence starts near 65535; timestamps near 2^32; clock instants over the NTP era; non-trivial = a call that produced >= 2 packets or padding",
 		Quick:    4000,
 		Thorough: 200000,
 		Gen: func(r *RNG, tier string, n int, emit func(op int, toks ...Tok)) {
 			for i := 0; i < n; i++ {
 				c := r.Fork(uint64(i))
 				mtu := c.Pick(64, 65, 72, 100, 120, 1200, 1500, 64+c.Intn(200))
-				code := c.Pick(0, 1, 2, 3)
+				code := c.Pick(0, 1, 2, 3, 4)
 				ops := TList{}
 				abs := false
 				for k, kn := 0, 1+c.Intn(8); k < kn; k++ {
